@@ -14,8 +14,10 @@ CLAUSES = {
 }
 DEATH = {"panic", "abort", "hang"}
 
+# clauses that compare wall-clock times: reported only if they reproduce
+TIMING = {"late_join", "stop_slow"}
 DEVS = ["silent_cancel_drop", "join_no_recheck", "cancel_skip_unsettled", "stop_timeout_ok", "keepalive_precedence",
-        "drop_undoes_cancel", "abandoned_stays_running", "count_before_create"]
+        "drop_undoes_cancel", "abandoned_stays_running", "count_before_create", "timeout_without_last_look"]
 
 
 def cfg(nt, nw, mx, mn, ms, ops, waiters, view):
@@ -93,6 +95,14 @@ def seeded(rng, pid):
         hist += [{"a": "stop", "ms": 250}]
         return {"nt": nt, "max": rng.choice([1, 2]), "min": 0, "hist": hist, "outcomes": outcomes, "prios": {}, "order": False,
                 "src": "refused-follow-up-while-stopping"}
+    if pid == "C02" and rng.random() < 0.12:
+        # the waiter's deadline passes while the worker is between storing the result and notifying (CoPool!W3deadline):
+        # the driver holds the worker there until 40 ms after the deadline; the wait must still report the result
+        outcome = rng.choice(["ok", "panic"])
+        hist = [{"a": "submit", "t": 1}, {"a": "wait", "t": 1, "ms": rng.choice([200, 300]), "race": "deadline"},
+                {"a": "body", "t": 1, "step": "finish"}, {"a": "pass"}, {"a": "pass"}]
+        return {"nt": 1, "max": 1, "min": 0, "hist": hist, "outcomes": {"1": outcome}, "prios": {}, "order": False,
+                "src": "deadline-in-the-notify-window"}
     if pid == "C11" and rng.random() < 0.25:
         # a positive keep-alive time (CoPool.tla, KeepAlive = TRUE): several workers are created (every task yields
         # once), the work completes, and the pool is stopped long before the workers' keep-alive time has passed.
@@ -235,6 +245,9 @@ def stage(pid, tier, v, cov, wd, bindir):
         rec = {"clause": x[1], "scenario_id": x[2], "trace_index": x[0], "detail": x[3] if len(x) > 3 else None,
                "src": sc.get("src"), "driver": "pool", "scenario": sc}
         if x[1] in mine:
+            if x[1] in TIMING and sc and not reproduces(bindir, "pool", sc, wd, "preset", "pend", "Trace_CoPool", x[1]):
+                v.note("timing clause %s of scenario %s did not reproduce in two further runs of the scenario alone: not reported" % (x[1], x[2]))
+                continue
             v.add(rec)
         else:
             other[x[1]] = other.get(x[1], 0) + 1
